@@ -5,52 +5,67 @@ import SeataModel.TCC.Fence
 namespace Seata.Props.C06
 open Seata.Fence
 
-/-- the invariant tying the record to the durable effects (code at HEAD) -/
+/-- the invariant tying the record to the durable effects: the record says exactly which effects
+    have been applied -/
 def Inv (s : BranchSt) : Prop :=
-  s.tries ≤ 1 ∧
   (s.row = none → s.tries = 0 ∧ s.confirms = 0 ∧ s.cancels = 0) ∧
   (s.row = some .tried → s.tries = 1 ∧ s.confirms = 0 ∧ s.cancels = 0) ∧
-  (s.row = some .committed → s.tries = 1 ∧ 1 ≤ s.confirms ∧ s.cancels = 0) ∧
-  (s.row = some .rollbacked → s.tries = 1 ∧ s.confirms = 0 ∧ 1 ≤ s.cancels) ∧
-  (s.row = some .suspended → s.tries = 0 ∧ s.confirms = 0)
+  (s.row = some .committed → s.tries = 1 ∧ s.confirms = 1 ∧ s.cancels = 0) ∧
+  (s.row = some .rollbacked → s.tries = 1 ∧ s.confirms = 0 ∧ s.cancels = 1) ∧
+  (s.row = some .suspended → s.tries = 0 ∧ s.confirms = 0 ∧ s.cancels = 0)
 
 theorem inv_init : Inv {} := by simp [Inv]
 
-/-- a delivery either changes nothing (refused / failed: the local transaction is rolled back) or
-    applies exactly the fence transition together with one business effect -/
+/-- a delivery either changes nothing (refused / failed: the local transaction is rolled back), or
+    applies the fence transition together with exactly one business effect, or (idempotent paths,
+    empty rollback) applies the fence transition and no business effect -/
 theorem deliver_cases (p : Phase) (f : Option Nat) (cb : Bool) (s : BranchSt) :
     deliver p f cb s = (s, .refused) ∨
-    ∃ r, fenceStep p s.row = .go r ∧ deliver p f cb s = (bump p { s with row := some r }, .ok) := by
+    (∃ r, fenceStep p s.row = .go r ∧ runsCallback p s.row = true ∧
+      deliver p f cb s = (bump p { s with row := some r }, .ok)) ∨
+    (∃ r, fenceStep p s.row = .go r ∧ runsCallback p s.row = false ∧
+      deliver p f cb s = ({ s with row := some r }, .ok)) := by
   unfold deliver
   cases hstep : fenceStep p s.row with
   | refuse => exact Or.inl rfl
   | go r =>
     simp only
-    by_cases hf : (fires f (pathLen p s.row) || cb) = true
+    by_cases hf : (fires f (pathLen p s.row) || (cb && runsCallback p s.row)) = true
     · simp [hf]
     · simp only [hf]
-      exact Or.inr ⟨r, rfl, by simp⟩
+      by_cases hc : runsCallback p s.row = true
+      · exact Or.inr (Or.inl ⟨r, rfl, hc, by simp [hc]⟩)
+      · exact Or.inr (Or.inr ⟨r, rfl, by simpa using hc, by simp [hc]⟩)
 
 theorem deliver_inv (p : Phase) (f : Option Nat) (cb : Bool) (s : BranchSt) (h : Inv s) :
     Inv (deliver p f cb s).1 := by
-  rcases deliver_cases p f cb s with hc | ⟨r, hstep, hc⟩
+  rcases deliver_cases p f cb s with hc | ⟨r, hstep, hrun, hc⟩ | ⟨r, hstep, hrun, hc⟩
   · rw [hc]; exact h
   · rw [hc]
-    obtain ⟨h0, h1, h2, h3, h4, h5⟩ := h
+    obtain ⟨h1, h2, h3, h4, h5⟩ := h
     cases hr : s.row with
     | none =>
       have := h1 hr
-      rw [hr] at hstep
-      cases p <;> simp [fenceStep] at hstep <;> subst hstep <;> simp [Inv, bump, this]
+      rw [hr] at hstep hrun
+      cases p <;> simp [fenceStep, runsCallback] at hstep hrun <;> subst hstep <;> simp [Inv, bump, this]
     | some st =>
-      rw [hr] at hstep
-      cases st <;> cases p <;> simp [fenceStep] at hstep <;> subst hstep
+      rw [hr] at hstep hrun
+      cases st <;> cases p <;> simp [fenceStep, runsCallback] at hstep hrun <;> subst hstep
+      all_goals (have := h2 hr; simp [Inv, bump, this])
+  · rw [hc]
+    obtain ⟨h1, h2, h3, h4, h5⟩ := h
+    cases hr : s.row with
+    | none =>
+      have := h1 hr
+      rw [hr] at hstep hrun
+      cases p <;> simp [fenceStep, runsCallback] at hstep hrun <;> subst hstep <;> simp [Inv, this]
+    | some st =>
+      rw [hr] at hstep hrun
+      cases st <;> cases p <;> simp [fenceStep, runsCallback] at hstep hrun <;> subst hstep
       all_goals (first
-        | (have := h2 hr; simp [Inv, bump, this]; done)
-        | (have := h3 hr; simp [Inv, bump, this] <;> omega)
-        | (have := h4 hr; simp [Inv, bump, this] <;> omega)
-        | (have := h5 hr; simp [Inv, bump, this]; done))
-
+        | (have := h3 hr; simp [Inv, this]; done)
+        | (have := h4 hr; simp [Inv, this]; done)
+        | (have := h5 hr; simp [Inv, this]; done))
 
 theorem get_put (st : Store) (b b' : Nat) (s : BranchSt) :
     Fence.get (Fence.put st b s) b' = if b' = b then s else Fence.get st b' := by
@@ -93,14 +108,27 @@ theorem run_inv_from (st : Store) (xs : List Delivery) (h : ∀ b, Inv (Fence.ge
 theorem run_inv (xs : List Delivery) (b : Nat) : Inv (Fence.get (run xs) b) :=
   run_inv_from [] xs (fun b => by rw [get_nil]; exact inv_init) b
 
-/-- the try effect is applied at most once per branch, whatever is delivered in whatever order -/
+/-- FULL property, all sequences / branches / faults: each of the try, confirm and cancel effects is
+    applied at most once per branch, whatever is delivered in whatever order and multiplicity -/
+theorem C06_at_most_once (xs : List Delivery) (b : Nat) :
+    (Fence.get (run xs) b).tries ≤ 1 ∧ (Fence.get (run xs) b).confirms ≤ 1 ∧ (Fence.get (run xs) b).cancels ≤ 1 := by
+  obtain ⟨h1, h2, h3, h4, h5⟩ := run_inv xs b
+  cases hr : (Fence.get (run xs) b).row with
+  | none => have := h1 hr; omega
+  | some st =>
+    cases st
+    · have := h2 hr; omega
+    · have := h3 hr; omega
+    · have := h4 hr; omega
+    · have := h5 hr; omega
+
 theorem C06_try_at_most_once (xs : List Delivery) (b : Nat) : (Fence.get (run xs) b).tries ≤ 1 :=
-  (run_inv xs b).1
+  (C06_at_most_once xs b).1
 
 /-- confirm and cancel are never both applied -/
 theorem C06_exclusive (xs : List Delivery) (b : Nat) :
     ¬ (0 < (Fence.get (run xs) b).confirms ∧ 0 < (Fence.get (run xs) b).cancels) := by
-  obtain ⟨_, h1, h2, h3, h4, h5⟩ := run_inv xs b
+  obtain ⟨h1, h2, h3, h4, h5⟩ := run_inv xs b
   intro ⟨hc, hk⟩
   cases hr : (Fence.get (run xs) b).row with
   | none => have := h1 hr; omega
@@ -111,27 +139,56 @@ theorem C06_exclusive (xs : List Delivery) (b : Nat) :
     · have := h4 hr; omega
     · have := h5 hr; omega
 
-/-- confirm is only ever applied to a branch whose try was applied -/
-theorem C06_confirm_needs_try (xs : List Delivery) (b : Nat) (h : 0 < (Fence.get (run xs) b).confirms) :
+/-- confirm and cancel are only ever applied to a branch whose try was applied -/
+theorem C06_confirm_needs_try (xs : List Delivery) (b : Nat)
+    (h : 0 < (Fence.get (run xs) b).confirms ∨ 0 < (Fence.get (run xs) b).cancels) :
     (Fence.get (run xs) b).tries = 1 := by
-  obtain ⟨_, h1, h2, h3, h4, h5⟩ := run_inv xs b
+  obtain ⟨h1, h2, h3, h4, h5⟩ := run_inv xs b
   cases hr : (Fence.get (run xs) b).row with
   | none => have := h1 hr; omega
   | some st =>
     cases st
     · have := h2 hr; omega
     · exact (h3 hr).1
-    · have := h4 hr; omega
+    · exact (h4 hr).1
     · have := h5 hr; omega
 
-/-- atomic: a database failure at ANY statement of the local transaction, or a failing callback,
-    leaves the fence record and every effect counter exactly as they were -/
+/-- atomic: a database failure at ANY statement of the local transaction, or a failure of the callback
+    where it runs, leaves the fence record and every effect counter exactly as they were -/
 theorem C06_atomic (p : Phase) (f : Option Nat) (cb : Bool) (s : BranchSt)
-    (h : fires f (pathLen p s.row) = true ∨ cb = true) : deliver p f cb s = (s, .refused) := by
+    (h : fires f (pathLen p s.row) = true ∨ (cb = true ∧ runsCallback p s.row = true)) :
+    deliver p f cb s = (s, .refused) := by
   unfold deliver
   cases fenceStep p s.row with
   | refuse => rfl
-  | go r => rcases h with h | h <;> simp [h]
+  | go r => rcases h with h | ⟨h, h'⟩ <;> simp [*]
+
+/-- the record and the effect move together: a delivery that is answered `ok` and runs the callback
+    changes the record AND applies exactly one effect; one that does not run it changes at most the record -/
+theorem C06_record_and_effect_together (p : Phase) (f : Option Nat) (cb : Bool) (s : BranchSt)
+    (h : (deliver p f cb s).2 = .ok) :
+    (runsCallback p s.row = true →
+      (deliver p f cb s).1.tries + (deliver p f cb s).1.confirms + (deliver p f cb s).1.cancels
+        = s.tries + s.confirms + s.cancels + 1 ∧ (deliver p f cb s).1.row ≠ s.row) ∧
+    (runsCallback p s.row = false →
+      (deliver p f cb s).1.tries = s.tries ∧ (deliver p f cb s).1.confirms = s.confirms ∧
+      (deliver p f cb s).1.cancels = s.cancels) := by
+  rcases deliver_cases p f cb s with hc | ⟨r, hstep, hrun, hc⟩ | ⟨r, hstep, hrun, hc⟩
+  · rw [hc] at h; cases h
+  · rw [hc]
+    refine ⟨fun _ => ?_, fun hn => ?_⟩
+    case refine_2 => rw [hrun] at hn; cases hn
+    cases hr : s.row with
+    | none =>
+      rw [hr] at hstep hrun
+      cases p <;> simp [fenceStep, runsCallback] at hstep hrun <;> subst hstep <;> simp [bump] <;> omega
+    | some st =>
+      rw [hr] at hstep hrun
+      cases st <;> cases p <;> simp [fenceStep, runsCallback] at hstep hrun <;> subst hstep <;> simp [bump] <;> omega
+  · rw [hc]
+    refine ⟨fun hn => ?_, fun _ => ⟨rfl, rfl, rfl⟩⟩
+    rw [hrun] at hn
+    cases hn
 
 /-- anti-suspension: once a rollback has arrived before try (record `suspended`), every later try is
     refused and applies nothing — for every continuation of the history -/
@@ -143,9 +200,9 @@ theorem suspended_step (p : Phase) (f : Option Nat) (cb : Bool) (s : BranchSt) (
   cases p <;> simp only [fenceStep]
   · simp [h]
   · simp [h]
-  · by_cases hf : (fires f (pathLen .rollback (some .suspended)) || cb) = true
-    · simp [hf, h]
-    · simp [hf, bump]
+  · by_cases hf : fires f (pathLen .rollback (some .suspended)) = true
+    · simp [hf, h, runsCallback]
+    · simp [hf, runsCallback]
 
 theorem C06_anti_suspension (st : Store) (xs : List Delivery) (b : Nat)
     (h : (Fence.get st b).row = some .suspended) :
@@ -166,115 +223,50 @@ theorem C06_anti_suspension (st : Store) (xs : List Delivery) (b : Nat)
     have := ih _ hstep.1
     exact ⟨this.1, this.2.trans hstep.2⟩
 
-/-- an empty rollback records the suspension -/
-theorem C06_empty_rollback_suspends (s : BranchSt) (h : s.row = none) :
-    (deliver .rollback none false s).1.row = some .suspended := by
-  simp [deliver, h, fenceStep, fires, bump]
+/-- an empty rollback records the suspension and applies NO business effect -/
+theorem C06_empty_rollback_suspends (s : BranchSt) (cb : Bool) (h : s.row = none) :
+    (deliver .rollback none cb s).1.row = some .suspended ∧ (deliver .rollback none cb s).2 = .ok ∧
+    (deliver .rollback none cb s).1.cancels = s.cancels ∧ (deliver .rollback none cb s).1.tries = s.tries ∧
+    (deliver .rollback none cb s).1.confirms = s.confirms := by
+  simp [deliver, h, fenceStep, fires, runsCallback]
+
+/-- a repeated commit (rollback) of a committed (rolled-back) branch is answered `ok` and changes nothing -/
+theorem C06_duplicate_is_noop (s : BranchSt) (cb : Bool) :
+    (s.row = some .committed → deliver .commit none cb s = (s, .ok)) ∧
+    (s.row = some .rollbacked → deliver .rollback none cb s = (s, .ok)) ∧
+    (s.row = some .suspended → deliver .rollback none cb s = (s, .ok)) := by
+  refine ⟨fun h => ?_, fun h => ?_, fun h => ?_⟩ <;>
+    (simp only [deliver, h, fenceStep, fires, runsCallback]; cases s; simp_all)
 
 /-- branches sharing the fence table do not influence each other -/
 theorem C06_branches_independent (st : Store) (x : Delivery) (b : Nat) (h : b ≠ x.branch) :
     Fence.get (stepWith deliver st x) b = Fence.get st b := by
   simp [stepWith, get_put, h]
 
-/-- where the callback is meant to run, or the fence refuses, the code IS the documented behaviour -/
-theorem C06_matches_spec_on_fragment (p : Phase) (f : Option Nat) (cb : Bool) (s : BranchSt)
+/-! What the repair changed, machine-checked: before it, `WithFence` ran the callback whenever the fence
+    step returned nil, so the full at-most-once statement was FALSE of the code (fixed findings
+    C06-duplicate-commit, C06-duplicate-rollback, C06-empty-rollback-runs-cancel). -/
+
+theorem C06_before_fix_duplicate_commit :
+    (Fence.get (runBeforeFix [{ branch := 1, phase := .prepare }, { branch := 1, phase := .commit }, { branch := 1, phase := .commit }]) 1).confirms = 2 := by
+  decide
+theorem C06_before_fix_duplicate_rollback :
+    (Fence.get (runBeforeFix [{ branch := 1, phase := .prepare }, { branch := 1, phase := .rollback }, { branch := 1, phase := .rollback }]) 1).cancels = 2 := by
+  decide
+theorem C06_before_fix_empty_rollback_runs_cancel :
+    (Fence.get (runBeforeFix [{ branch := 1, phase := .rollback }]) 1).cancels = 1 := by decide
+
+/-- where the callback runs, or the fence refuses, the repair changed nothing -/
+theorem C06_fix_is_local (p : Phase) (f : Option Nat) (cb : Bool) (s : BranchSt)
     (h : runsCallback p s.row = true ∨ fenceStep p s.row = .refuse) :
-    deliver p f cb s = deliverSpec p f cb s := by
-  unfold deliver deliverSpec
+    deliver p f cb s = deliverBeforeFix p f cb s := by
+  unfold deliver deliverBeforeFix
   rcases h with h | h
+  · have hl : pathLen p s.row = pathLenBeforeFix p s.row := by
+      cases p <;> cases hr : s.row <;> simp [hr, runsCallback] at h <;> (try rename_i st; cases st) <;>
+        simp_all [pathLen, pathLenBeforeFix, runsCallback]
+    simp [h, hl]
   · simp [h]
-  · simp [h]
-
-/-- the documented behaviour satisfies the FULL property: every effect at most once -/
-def InvSpec (s : BranchSt) : Prop :=
-  s.tries ≤ 1 ∧ s.confirms ≤ 1 ∧ s.cancels ≤ 1 ∧
-  (s.row = none → s.tries = 0 ∧ s.confirms = 0 ∧ s.cancels = 0) ∧
-  (s.row = some .tried → s.confirms = 0 ∧ s.cancels = 0) ∧
-  (s.row = some .committed → s.cancels = 0) ∧
-  (s.row = some .rollbacked → s.confirms = 0) ∧
-  (s.row = some .suspended → s.tries = 0 ∧ s.confirms = 0 ∧ s.cancels = 0)
-
-theorem deliverSpec_cases (p : Phase) (f : Option Nat) (cb : Bool) (s : BranchSt) :
-    deliverSpec p f cb s = (s, .refused) ∨
-    (∃ r, fenceStep p s.row = .go r ∧ runsCallback p s.row = true ∧
-      deliverSpec p f cb s = (bump p { s with row := some r }, .ok)) ∨
-    (∃ r, fenceStep p s.row = .go r ∧ runsCallback p s.row = false ∧
-      deliverSpec p f cb s = ({ s with row := some r }, .ok)) := by
-  unfold deliverSpec
-  cases hstep : fenceStep p s.row with
-  | refuse => exact Or.inl rfl
-  | go r =>
-    simp only
-    by_cases hf : (fires f (pathLen p s.row) || (cb && runsCallback p s.row)) = true
-    · simp [hf]
-    · simp only [hf]
-      by_cases hc : runsCallback p s.row = true
-      · exact Or.inr (Or.inl ⟨r, rfl, hc, by simp [hc]⟩)
-      · exact Or.inr (Or.inr ⟨r, rfl, by simpa using hc, by simp [hc]⟩)
-
-theorem deliverSpec_inv (p : Phase) (f : Option Nat) (cb : Bool) (s : BranchSt) (h : InvSpec s) :
-    InvSpec (deliverSpec p f cb s).1 := by
-  rcases deliverSpec_cases p f cb s with hc | ⟨r, hstep, hrun, hc⟩ | ⟨r, hstep, hrun, hc⟩
-  · rw [hc]; exact h
-  · rw [hc]
-    obtain ⟨h0, h0c, h0k, h1, h2, h3, h4, h5⟩ := h
-    cases hr : s.row with
-    | none =>
-      have := h1 hr
-      rw [hr] at hstep hrun
-      cases p <;> simp [fenceStep, runsCallback] at hstep hrun <;> subst hstep <;> simp [InvSpec, bump, this]
-    | some st =>
-      rw [hr] at hstep hrun
-      cases st <;> cases p <;> simp [fenceStep, runsCallback] at hstep hrun <;> subst hstep
-      all_goals (have := h2 hr; simp [InvSpec, bump, this]; omega)
-  · rw [hc]
-    obtain ⟨h0, h0c, h0k, h1, h2, h3, h4, h5⟩ := h
-    cases hr : s.row with
-    | none =>
-      have := h1 hr
-      rw [hr] at hstep hrun
-      cases p <;> simp [fenceStep, runsCallback] at hstep hrun <;> subst hstep <;> simp [InvSpec, this]
-    | some st =>
-      rw [hr] at hstep hrun
-      cases st <;> cases p <;> simp [fenceStep, runsCallback] at hstep hrun <;> subst hstep
-      all_goals (first
-        | (have := h3 hr; simp [InvSpec, this]; omega)
-        | (have := h4 hr; simp [InvSpec, this]; omega)
-        | (have := h5 hr; simp [InvSpec, this]))
-
-/-- FULL property on the documented behaviour, all sequences / branches / faults: each of try, confirm
-    and cancel at most once -/
-theorem spec_run_inv_from (st : Store) (xs : List Delivery) (h : ∀ b, InvSpec (Fence.get st b)) :
-    ∀ b, InvSpec (Fence.get (xs.foldl (stepWith deliverSpec) st) b) := by
-  induction xs generalizing st with
-  | nil => exact h
-  | cons x r ih =>
-    simp only [List.foldl_cons]
-    apply ih
-    intro b
-    simp only [stepWith, get_put]
-    split
-    · exact deliverSpec_inv _ _ _ _ (h x.branch)
-    · exact h b
-
-theorem C06_spec_at_most_once (xs : List Delivery) (b : Nat) :
-    (Fence.get (runSpec xs) b).tries ≤ 1 ∧ (Fence.get (runSpec xs) b).confirms ≤ 1 ∧ (Fence.get (runSpec xs) b).cancels ≤ 1 := by
-  have := spec_run_inv_from [] xs (fun b => by rw [get_nil]; simp [InvSpec]) b
-  exact ⟨this.1, this.2.1, this.2.2.1⟩
-
-/-! The full at-most-once statement is FALSE of the code at HEAD — known findings, machine-checked: -/
-
-/-- C06-duplicate-commit: a repeated commit delivery runs the confirm callback again -/
-theorem C06_FINDING_duplicate_commit :
-    (Fence.get (run [{ branch := 1, phase := .prepare }, { branch := 1, phase := .commit }, { branch := 1, phase := .commit }]) 1).confirms = 2 := by
-  decide
-/-- C06-duplicate-rollback -/
-theorem C06_FINDING_duplicate_rollback :
-    (Fence.get (run [{ branch := 1, phase := .prepare }, { branch := 1, phase := .rollback }, { branch := 1, phase := .rollback }]) 1).cancels = 2 := by
-  decide
-/-- C06-empty-rollback-runs-cancel: a rollback before try records the suspension but still runs cancel -/
-theorem C06_FINDING_empty_rollback_runs_cancel :
-    (Fence.get (run [{ branch := 1, phase := .rollback }]) 1).cancels = 1 := by decide
 
 /-! Counter-example against the shape at c3b0bd5: no suspension was recorded, so a late try went through. -/
 theorem C06_asCoded_no_suspension :
